@@ -109,6 +109,7 @@ func (o *replOS) Readline(opts interp.ReadlineOpts) (string, error) {
 
 type ReplCase struct {
 	Kind   string `json:"kind"`
+	Prefix []string `json:"prefix,omitempty"` // lines evaluated at the same level before the line under test
 	Depth  int    `json:"depth"`
 	Prog   string `json:"prog"`
 	FireAt int    `json:"fire_at"`
@@ -132,6 +133,7 @@ func runRepl(c ReplCase) replObs {
 	for i := 1; i < c.Depth; i++ {
 		lines = append(lines, fmt.Sprintf("%d | repl", i))
 	}
+	lines = append(lines, c.Prefix...)
 	test := len(lines)
 	lines = append(lines, c.Prog, `"next-line-ran"`)
 	for i := 1; i < c.Depth; i++ {
@@ -242,6 +244,96 @@ func replInterrupts(r *core.Run) {
 	r.AddTraces(n)
 	r.Sample(map[string]any{"repl_case": ReplCase{Kind: "repl", Depth: 2, Prog: progs[0], FireAt: 2, WaitMs: 150}})
 	r.Section("repl-interrupt-during-output")
+}
+
+// replHistories: evaluation histories. Lines that end in every way an evaluation can
+// end (values, runtime error, nested evaluation that finishes / fails and is caught /
+// is abandoned by first() or limit()) are run before, and as a silent prelude inside,
+// the line under test; the interrupt is delivered at the k-th write of the line under
+// test, all of whose output comes from the line's own (outermost running) evaluation.
+// Whatever happened before, the interrupt has to cancel that evaluation.
+var replPrefixLines = []string{
+	`1`,
+	`error("x")`,
+	`eval("1")`,
+	`try eval("error(1)") catch .`,
+	`first(eval("1,2"))`,
+	`[limit(1; eval("range(10)"))]`,
+	`try eval("1, error(2)") catch .`,
+	`eval("eval(\"1\")")`,
+}
+
+var replPreludes = []string{
+	``,
+	`(try eval("error(1)") catch empty), `,
+	`(first(eval("1,2")) | empty), `,
+	`(eval("empty")), `,
+	`(try error("x") catch empty), `,
+	`([eval("1,2,3")] | empty), `,
+	`(try eval("eval(\"error(1)\")") catch empty), `,
+	`([limit(2; eval("range(10)"))] | empty), `,
+}
+
+func replHistories(r *core.Run) {
+	var prefixes [][]string
+	prefixes = append(prefixes, nil)
+	for _, a := range replPrefixLines {
+		prefixes = append(prefixes, []string{a})
+	}
+	if r.Thorough() {
+		for _, a := range replPrefixLines {
+			for _, b := range replPrefixLines {
+				prefixes = append(prefixes, []string{a, b})
+			}
+		}
+	}
+	depths := []int{1, 2}
+	fires := core.Pick(r, []int{1, 7}, []int{1, 2, 7, 19})
+	var n int64
+	idx := int64(0)
+	for _, d := range depths {
+		for _, pf := range prefixes {
+			for _, pre := range replPreludes {
+				for _, k := range fires {
+					idx++
+					if r.ShardN > 1 && idx%int64(r.ShardN-1) != int64(r.ShardIdx-1) {
+						continue
+					}
+					if r.Expired() {
+						r.NotExhaustive("deadline in REPL history enumeration")
+						return
+					}
+					c := ReplCase{Kind: "repl-history", Prefix: pf, Depth: d, Prog: pre + `(range(3000) | tostring)`, FireAt: k, WaitMs: 150}
+					obs := runRepl(c)
+					n++
+					if bad := judgeRepl(c, obs); bad != "" {
+						c2 := c
+						c2.WaitMs = 1500
+						obs2 := runRepl(c2)
+						if bad2 := judgeRepl(c2, obs2); bad2 != "" {
+							// signature: how the earlier evaluation ended, not the whole history
+							last := pre
+							if last == "" && len(pf) > 0 {
+								last = "line:" + pf[len(pf)-1]
+							}
+							r.Violate("repl-history:"+strings.SplitN(bad2, ":", 2)[0]+":after:"+last,
+								fmt.Sprintf("REPL depth %d, earlier lines %q, line %q, interrupt at write %d: %s", d, pf, c.Prog, k, bad2), c2)
+						} else {
+							r.Inconclusive(fmt.Sprintf("REPL history depth %d %q %q write %d: %s with 150ms settle time only", d, pf, c.Prog, k, bad))
+						}
+					}
+					if obs.interrupted && (len(pf) > 0 || pre != "") {
+						r.Nontrivial(fmt.Sprintf("repl-history:%d:%v:%s:%d", d, pf, pre, k))
+					}
+				}
+			}
+		}
+	}
+	r.Eval(n)
+	r.AddTransitions(n)
+	r.AddTraces(n)
+	r.Sample(map[string]any{"repl_history_case": ReplCase{Kind: "repl-history", Prefix: []string{replPrefixLines[3]}, Depth: 1, Prog: replPreludes[2] + `(range(3000) | tostring)`, FireAt: 7, WaitMs: 150}})
+	r.Section("repl-interrupt-after-history")
 }
 
 func judgeRepl(c ReplCase, o replObs) string {
